@@ -508,7 +508,7 @@ def resume (s : Sys) (pid : Nat) (orc : Oracle) : Sys × Yield :=
   match s.proc? pid with
   | none => (s, .raised .other)
   | some p =>
-    if !p.alive ∨ s.crashed.isSome then (s, .raised .other)
+    if !p.alive then (s, .raised .other)
     else
       let (s1, k, y) := s.block p orc
       match y with
